@@ -115,7 +115,7 @@ int main(VF_MAIN_ARGS)
         } else nt = 0;
         memset(&patch, 0, sizeof patch); memset(pm, 0, sizeof pm);
         patch.type = pobj ? cJSON_Object : ((IN.pk % 3) == 1 ? cJSON_Array : cJSON_String);
-        for (i = 0; i < np; i++) { pm[i].type = (IN.pnull[i] & 1) ? cJSON_NULL : cJSON_Number; memcpy(pkey[i], &IN.keyp[i], 1); pkey[i][1] = 0; pm[i].string = pkey[i]; if (i) { pm[i - 1].next = &pm[i]; pm[i].prev = &pm[i - 1]; } }
+        for (i = 0; i < np; i++) { pm[i].type = ((IN.pnull[i] & 1) ? cJSON_NULL : cJSON_Number) | ((IN.pnull[i] & 2) ? cJSON_StringIsConst : 0) | ((IN.pnull[i] & 4) ? cJSON_IsReference : 0);   /* ownership flags do not change what a member means */ memcpy(pkey[i], &IN.keyp[i], 1); pkey[i][1] = 0; pm[i].string = pkey[i]; if (i) { pm[i - 1].next = &pm[i]; pm[i].prev = &pm[i - 1]; } }
         if (np) { patch.child = &pm[0]; pm[0].prev = &pm[np - 1]; }
         live0 = vf_live;
 
